@@ -122,6 +122,11 @@ fn shapes() -> Vec<Shape> {
         Shape { name: "int64", ty: Ty::Int(IntTy::I64), values: ints(IntTy::I64, &[0, 1, 2, 9223372036854775807]), has_int: true },
         Shape { name: "string", ty: Ty::Str, values: strs.clone(), has_int: false },
         Shape { name: "str_bool", ty: Ty::Tuple(vec![Ty::Str, Ty::Bool]), values: product(&[strs, bools()]).into_iter().map(Expr::Tuple).collect(), has_int: false },
+        // a tuple column next to a sibling column (splitting the inner tuple must keep the sibling tests of rows that
+        // do not mention it; added after a seeded change that dropped them)
+        Shape { name: "bool_pair_nested", ty: Ty::Tuple(vec![Ty::Bool, bb.clone()]), values: product(&[bools(), product(&[bools(), bools()]).into_iter().map(Expr::Tuple).collect()]).into_iter().map(Expr::Tuple).collect(), has_int: false },
+        Shape { name: "bool_intpair_nested", ty: Ty::Tuple(vec![Ty::Bool, Ty::Tuple(vec![I32, I32])]), values: product(&[bools(), product(&[ints(IntTy::I32, &[0, 1]), ints(IntTy::I32, &[5, 6])]).into_iter().map(Expr::Tuple).collect()]).into_iter().map(Expr::Tuple).collect(), has_int: true },
+        Shape { name: "pair_nested_bool", ty: Ty::Tuple(vec![bb.clone(), Ty::Bool]), values: product(&[product(&[bools(), bools()]).into_iter().map(Expr::Tuple).collect(), bools()]).into_iter().map(Expr::Tuple).collect(), has_int: false },
         Shape { name: "int_bool", ty: Ty::Tuple(vec![I32, Ty::Bool]), values: product(&[ints(IntTy::I32, &[0, 1, 2]), bools()]).into_iter().map(Expr::Tuple).collect(), has_int: true },
     ]
 }
